@@ -87,7 +87,7 @@ fn object(enc: Enc, subset: u64, rot: usize, link: Option<u32>) -> Obj {
         // PT_DYNAMIC designates the same bytes as .dynamic (which exists whenever PT_DYNAMIC does)
         spec.segs = vec![
             Seg { p_type: PT_LOAD, flags: 5, vaddr: 0, paddr: 0, align: 16, memsz_extra: 0, target: SegTarget::Section(1) },
-            Seg { p_type: PT_DYNAMIC, flags: 6, vaddr: 0, paddr: 0, align: 8, memsz_extra: 0, target: SegTarget::Section(dynamic_i) },
+            Seg { p_type: PT_DYNAMIC, flags: 6, vaddr: 0, paddr: 0, align: 8, memsz_extra: 24, target: SegTarget::Section(dynamic_i) },
         ];
     }
     Obj { bytes: build(&spec).bytes, dyn_names, symoffset: g.symoffset }
